@@ -61,6 +61,9 @@ CHECKS = {
     'C19': dict(engine='loglens', technique='the data-path and catalogue specifications (IggyLog, IggyCatalogue) with the encryption bit on + TLC trace validation + plaintext scan of every file as an observed variable + restart with a different key',
                 text='Same scenarios as C01-C03/C05 with encryption on: every sweep must still equal the specification (lossless), no payload marker / journalled name may be found in clear in any file after any step, the journal must be replayable after restart with the same key, and after a restart with another key the server must refuse to start or answer errors - never hand out a message.',
                 ref='7/C19'),
+    'C12': dict(engine='mtlens', technique='TLA+ specs IggyLogMT (operational: SendStart/Commit/SendEnd, PollStart/PollRead/PollEnd with a ghost history) and LogMTHistory (history-level statement) + TLC model checking that every history of the model satisfies the statement + TLC validation of histories recorded from multi-threaded stress runs of the real server',
+                text='Design: TLC checks that every complete history of the operational model (2 producers, 1 poller) satisfies the history predicates (total order of whole batches, producer order, polls are runs, no torn batch, no read from the future, acknowledged-implies-visible). Code: 2-4 producers and 1-3 pollers on their own TCP connections against a multi-thread server, with flushes and background saves, under {save threshold} x {segment size} x {cache} x {wait, no-wait}; every call is recorded with global sequence numbers and the recorded history is judged by the same predicates against the final content.',
+                ref='3.2, 7/C12'),
 }
 
 def main():
@@ -93,7 +96,9 @@ def main():
                  dict(name='jrnlens', path='lib/jrnlens.py + harness/src/jrn_lens.rs + specs/IggyJournal.tla, MC_IggyJournal.tla, Trace_IggyJournal.tla',
                       serves_properties=['C11'], kind_free_text='journal appliers under forced schedules/faults (hooks H4/H5) and byte-level tamper sweep'),
                  dict(name='wirelens', path='lib/wirelens.py + harness/src/wire_lens.rs + specs/IggyWire.tla, Trace_IggyWire.tla',
-                      serves_properties=['C13'], kind_free_text='request round trips through the server decoder (hook H7), garbage frames')],
+                      serves_properties=['C13'], kind_free_text='request round trips through the server decoder (hook H7), garbage frames'),
+                 dict(name='mtlens', path='lib/mtlens.py + harness/src/mt_lens.rs + specs/IggyLogMT.tla, LogMTHistory.tla, Trace_IggyLogMT.tla',
+                      serves_properties=['C12'], kind_free_text='multi-threaded stress histories validated against a history-level specification')],
         checks=[],
         notes='See DESIGN.md. Exit codes: 0 held, 1 + VIOLATION line, 2 tool error. known-findings.json lists fixed and open findings.',
         not_applicable=[],
